@@ -753,13 +753,25 @@ pub mod parser {
     pub struct HopPatternParser<'a> {
         tokens: &'a [Token],
         pos: usize,
+        /// Number of operators and groups parsed so far, see [`MAX_OPERATORS`].
+        operators: usize,
     }
+
+    /// Upper bound on the number of operators and parenthesised groups in one pattern.
+    ///
+    /// Parsing, matching, cloning and dropping recurse once per nesting level of the expression
+    /// tree; the bound keeps that depth far away from the stack size of any thread.
+    const MAX_OPERATORS: usize = 256;
 
     impl<'a> HopPatternParser<'a> {
         /// Create a new parser for the given tokens.
         #[inline]
         pub const fn new(tokens: &'a [Token]) -> Self {
-            Self { tokens, pos: 0 }
+            Self {
+                tokens,
+                pos: 0,
+                operators: 0,
+            }
         }
 
         /// Peek current token kind without consuming.
@@ -777,6 +789,23 @@ pub mod parser {
             } else {
                 None
             }
+        }
+
+        /// Accounts for one more operator or group, failing once the pattern has too many.
+        fn count_operator(&mut self) -> Result<(), ParseError> {
+            self.operators += 1;
+            if self.operators > MAX_OPERATORS {
+                let span = self
+                    .tokens
+                    .get(self.pos.saturating_sub(1))
+                    .map(|t| t.span)
+                    .unwrap_or((0, 0));
+                return Err(ParseError::new(
+                    span,
+                    format!("pattern has more than {MAX_OPERATORS} operators and groups").into(),
+                ));
+            }
+            Ok(())
         }
 
         /// Core expression parser.
@@ -801,6 +830,7 @@ pub mod parser {
                 }
                 // Parenthesized sub-expression
                 Some((TokenKind::LParen, span_l)) => {
+                    self.count_operator()?;
                     let nested_expr = self.parse_expr(NO_BIND_POWER)?;
                     match self.consume() {
                         Some((TokenKind::RParen, _)) => nested_expr,
@@ -844,16 +874,19 @@ pub mod parser {
                 match self.peek_kind() {
                     Some(TokenKind::QMark) => {
                         self.consume();
+                        self.count_operator()?;
                         expr = HopPatternExpression::Optional(Box::new(expr));
                         continue;
                     }
                     Some(TokenKind::Plus) => {
                         self.consume();
+                        self.count_operator()?;
                         expr = HopPatternExpression::OneOrMore(Box::new(expr));
                         continue;
                     }
                     Some(TokenKind::Star) => {
                         self.consume();
+                        self.count_operator()?;
                         expr = HopPatternExpression::ZeroOrMore(Box::new(expr));
                         continue;
                     }
@@ -890,6 +923,7 @@ pub mod parser {
 
                 // Consume operator token
                 self.consume();
+                self.count_operator()?;
 
                 // Adjust RHS binding power for associativity
                 let rhs_binding_power = match op_grouping {
